@@ -13,6 +13,8 @@ sys.path.insert(0, os.path.join(ROOT, "tools"))
 from mutants import M
 
 SCR = os.environ.get("VP_SELFTEST_DIR", "/tmp/vpseedrun" if "--seeded" in sys.argv else "/tmp/vpmut")
+# the harness under test: by default this /verif; VP_SELFTEST_SRC points to another checkout of it
+SRC = os.environ.get("VP_SELFTEST_SRC", ROOT)
 REPO = os.path.join(SCR, "repo")
 VER = os.path.join(SCR, "verif")
 ENV = dict(os.environ, CARGO_NET_OFFLINE="true")
@@ -30,14 +32,14 @@ def setup():
     assert rc == 0, out
     os.makedirs(VER)
     for f in ["check", "known_findings.json", "properties.jsonl"]:
-        shutil.copy(os.path.join(ROOT, f), os.path.join(VER, f))
-    for d in ["golden", "findings"]:
-        shutil.copytree(os.path.join(ROOT, d), os.path.join(VER, d))
+        shutil.copy(os.path.join(SRC, f), os.path.join(VER, f))
+    for d in ["golden", "findings", "tools"]:
+        shutil.copytree(os.path.join(SRC, d), os.path.join(VER, d))
     os.makedirs(os.path.join(VER, "harness"))
     for f in ["Cargo.toml", "Cargo.lock"]:
-        shutil.copy(os.path.join(ROOT, "harness", f), os.path.join(VER, "harness", f))
-    shutil.copytree(os.path.join(ROOT, "harness", "src"), os.path.join(VER, "harness", "src"))
-    shutil.copytree(os.path.join(ROOT, "harness", ".cargo"), os.path.join(VER, "harness", ".cargo"))
+        shutil.copy(os.path.join(SRC, "harness", f), os.path.join(VER, "harness", f))
+    shutil.copytree(os.path.join(SRC, "harness", "src"), os.path.join(VER, "harness", "src"))
+    shutil.copytree(os.path.join(SRC, "harness", ".cargo"), os.path.join(VER, "harness", ".cargo"))
     p = os.path.join(VER, "harness", "Cargo.toml")
     s = open(p).read().replace('path = "/repo"', f'path = "{REPO}"')
     open(p, "w").write(s)
@@ -175,7 +177,7 @@ def main():
         if "--keep" not in args:
             teardown()
     os.makedirs(os.path.join(ROOT, "notes"), exist_ok=True)
-    outp = os.path.join(ROOT, "notes", "seeded-results.json" if "--seeded" in args else "selftest-results.json")
+    outp = os.path.join(ROOT, "notes", os.environ.get("VP_SELFTEST_OUT", "seeded-results.json" if "--seeded" in args else "selftest-results.json"))
     prev = []
     if os.path.exists(outp) and (only or prop):
         prev = [x for x in json.load(open(outp)) if x["id"] not in {r["id"] for r in results}]
